@@ -442,8 +442,13 @@ static int c13_cmd (char *line)
   if (!strcmp (line, "drain"))
     {
       int guard = 0;
-      while (do_extract () && ++guard < 5000)
-        ;
+      while (do_extract ())
+        if (++guard >= 1100)
+          {
+            /* more commands than the buffer can hold: the extraction does not make progress */
+            vh_out ("crash livelock: drain returned %d commands", guard);
+            _exit (0);
+          }
       return 1;
     }
   if (!strcmp (line, "finish"))
@@ -453,8 +458,12 @@ static int c13_cmd (char *line)
         {
           do_read ();
           int g2 = 0;
-          while (do_extract () && ++g2 < 5000)
-            ;
+          while (do_extract ())
+            if (++g2 >= 1100)
+              {
+                vh_out ("crash livelock: drain returned %d commands", g2);
+                _exit (0);
+              }
         }
       return 1;
     }
